@@ -707,8 +707,9 @@ Proof.
       * intros ra rb Ira Irb. unfold pd_set_scalar. cbn [cols key_of map]. rewrite (add_end_new _ _ Sl), (add_end_new _ _ Sr).
         rewrite (set_cell_new _ _ _ _ Sl), (set_cell_new _ _ _ _ Sr).
         unfold width_ok in Wl, Wr. rewrite Forall_forall in Wl, Wr.
-        rewrite (get_app_r _ _ _ _ _ (Wl ra Ira) Sl), (get_app_r _ _ _ _ _ (Wr rb Irb) Sr). reflexivity.
-      * rewrite Em. cbn [obind fold_left]. rewrite Ed. cbn [obind]. exact Ef.
+        rewrite (get_app_r _ _ _ _ _ (Wl ra Ira) Sl), (get_app_r _ _ _ _ _ (Wr rb Irb) Sr).
+        unfold get. cbn [index_of]. destruct (eq_dec S S); [|congruence]. reflexivity.
+      * cbn [obind fold_left]. rewrite Ed. cbn [obind]. exact Ef.
     + (* keyed join *)
       rewrite <- Ea in *. assert (on_a <> []) as Na by (rewrite Ea; discriminate). clear Ea a0 on_a'.
       assert (forall (A : Type) (x1 x2 : A), match on_a with [] => x1 | _ :: _ => x2 end = x2) as Mo by (intros; destruct on_a; [congruence|reflexivity]).
